@@ -63,14 +63,15 @@ Proof.
 Qed.
 Print Assumptions C10_mode.
 
-(* args.json exists iff args is non-empty, options.json iff options is non-empty -- for EVERY
+(* both logs are finished (copier joined at end of file, file closed) before anything else happens;
+   args.json exists iff args is non-empty, options.json iff options is non-empty -- for EVERY
    execution, whatever its exit status (D26); both are written before the exit status is examined;
    a non-zero status then raises and inserts no row; a zero status inserts and commits the row last *)
 Theorem C10_presence : forall (A B : Type) (args : list A) (opts : list B) rc ae oe,
   record_rule args opts rc =
     (match args with [] => false | _ => true end, match opts with [] => false | _ => true end) /\
   exists pre post,
-    finish_execution rc true ae oe true = pre ++ post /\
+    finish_execution rc true ae oe true = [CloseLog; CloseLog] ++ pre ++ post /\
     (forall e, In e pre -> e = WriteArgsJson \/ e = WriteOptionsJson) /\
     (In WriteArgsJson pre <-> ae = false) /\ (In WriteOptionsJson pre <-> oe = false) /\
     (rc <> 0 -> post = [RaiseNonZeroExit]) /\ (rc = 0 -> post = [InsertRow; CommitIndex]).
